@@ -789,6 +789,35 @@ while True:
   yield {item}
 """
 
+def O_no_ambient_state(coqname):
+  """Recogniser over the WHOLE module: nothing may depend on the interpreter process (hash / id of objects,
+  clocks, the environment, uuids, unseeded or global random state).  The only random source allowed is
+  `np.random.RandomState(seed)` built from the caller's seed."""
+  def emit(tree):
+    for n in ast.walk(tree):
+      if isinstance(n, ast.Call) and isinstance(n.func, ast.Name) and n.func.id in ('hash', 'id'):
+        raise Unsupported(f'line {n.lineno}: {n.func.id}(...) depends on the interpreter process')
+      if isinstance(n, (ast.Attribute, ast.Name)):
+        try:
+          d = dotted(n)
+        except Unsupported:
+          continue
+        if d.split('.')[0] in ('time', 'uuid', 'secrets', 'random', 'datetime') or d.startswith('os.environ') or d.startswith('os.getpid'):
+          raise Unsupported(f'line {n.lineno}: {d} depends on the interpreter process / ambient state')
+        if d.startswith('np.random.') and d != 'np.random.RandomState':
+          raise Unsupported(f'line {n.lineno}: {d}: global / unseeded numpy random state')
+      if isinstance(n, ast.Call) and isinstance(n.func, ast.Attribute):
+        try:
+          d = dotted(n.func)
+        except Unsupported:
+          continue
+        if d == 'np.random.RandomState' and not (len(n.args) == 1 and not n.keywords and isinstance(n.args[0], ast.Name)
+                                                 and n.args[0].id == 'seed'):
+          raise Unsupported(f'line {n.lineno}: RandomState is not built from the caller\'s seed')
+    return f'Definition {coqname}_no_ambient_state : bool := true.'
+  return emit
+
+
 def O_text(qual, shape, text):
   """A generator method whose loop shape `shape(fd)` accepts is emitted as the combinator call `text`
   (Common/PyIter.v) over the separately translated item / guard expressions of the same loop."""
@@ -1009,6 +1038,7 @@ MODULES = {
         'preamble': PRE + SEC,
         'postamble': 'End Obj.\n',
         'items': [
+            O_no_ambient_state('federated_data'),
             B_fun('intersect_slice_ranges', 'intersect_slice_ranges',
                   [('current_start', 'optB'), ('current_stop', 'optB'), ('new_start', 'optB'), ('new_stop', 'optB')],
                   ('optB', 'optB'),
@@ -1072,6 +1102,7 @@ MODULES = {
         'preamble': PRE + 'From FV Require Import gen.Gen_client_datasets_pre gen.Gen_federated_data.\n' + SEC,
         'postamble': 'End Obj.\n',
         'items': [
+            O_no_ambient_state('in_memory_federated_data'),
             B_fun('InMemoryFederatedData.slice', 'in_memory_slice_ids',
                   [('client_ids0', 'ids'), ('start', 'optB'), ('stop', 'optB')], 'ids',
                   names={'self._client_ids': 'client_ids0'}, pyparams=['self', 'start', 'stop'],
@@ -1153,6 +1184,7 @@ for client_id in self._client_ids:
         'preamble': PRE + 'From FV Require Import gen.Gen_client_datasets_pre gen.Gen_federated_data.\n' + SEC,
         'postamble': 'End Obj.\n',
         'items': [
+            O_no_ambient_state('sqlite_federated_data'),
             B_fun('SQLiteFederatedData._range_where', 'sqlite_range_where',
                   [('start', 'optB'), ('stop', 'optB'), ('client_id', 'B')], 'sqlpred',
                   names=SELF_RANGE, pyparams=['self']),
